@@ -59,4 +59,17 @@ theorem occpre_succ (l : List α) (i : Nat) (c : α) (h : i < l.length) :
 
 theorem occpre_length (l : List α) (c : α) : OccPre l l.length c = Occ l c := by simp [OccPre, Occ]
 
+/-- contracts/cfg_eps.py: a body without epsilon object is kept as it is by `Production(...)` (which filters the epsilon objects out);
+NEp l = "no element of l is eps", with its two structural equations -/
+def NEp (eps : α) (l : List α) : Prop := ∀ a ∈ l, a ≠ eps
+
+theorem nep_nil (eps : α) : NEp eps ([] : List α) := by simp [NEp]
+
+theorem nep_cons (eps a : α) (l : List α) : NEp eps (a :: l) ↔ (a ≠ eps ∧ NEp eps l) := by simp [NEp]
+
+theorem filter_keeps (eps : α) (l : List α) (h : NEp eps l) : l.filter (fun a => decide (a ≠ eps)) = l := by
+  rw [List.filter_eq_self]
+  intro a ha
+  simpa using h a ha
+
 end Bridge.Count
